@@ -36,7 +36,7 @@ theorem countAt_unfold (v0 f0 : K) (tail : List (K × K)) (vl fl lo hi x : K)
   simp only [List.head?_cons, hl, sumCounts_eq_mass, Gen.DistogramExpr.countOutside, Gen.DistogramExpr.countAtMin,
     Gen.DistogramExpr.countAtMax, Gen.DistogramExpr.countLeftTest, Gen.DistogramExpr.countLeftRatio,
     Gen.DistogramExpr.countLeftResult, Gen.DistogramExpr.countRightTest, Gen.DistogramExpr.countRightRatio,
-    Gen.DistogramExpr.countRightResult, e, gt_iff_lt, ge_iff_le, decide_eq_true_eq]
+    Gen.DistogramExpr.countRightResult, e, gt_iff_lt, ge_iff_le, decide_eq_true_eq, not_and_or, not_le]
 
 theorem left_bounds {lo v0 w x : K} (h1 : lo < x) (h2 : x ≤ v0) (hf : 0 ≤ w) :
     0 ≤ (x - lo) / (v0 - lo) * w / 2 ∧ (x - lo) / (v0 - lo) * w / 2 ≤ w / 2 := by
